@@ -738,7 +738,15 @@ fn stark_perturb(si: &mut Si, class: &str, i: usize) -> bool {
     match class {
         "public_input" => si.proof.public_inputs[i] = bump(si.proof.public_inputs[i]),
         "cfg.security_bits" => si.config.security_bits += 1,
-        "cfg.num_challenges" => si.config.num_challenges += 1,
+        // (with a lookup argument one challenge MORE makes get_challenges index past the helper columns of the
+        // proof - a panic on an inconsistent statement, not comparable; one challenge fewer stays computable)
+        "cfg.num_challenges" => {
+            if si.kind == Kind::Perm && si.config.num_challenges > 1 {
+                si.config.num_challenges -= 1
+            } else {
+                si.config.num_challenges += 1
+            }
+        }
         "fri.rate_bits" | "fri.cap_height" | "fri.proof_of_work_bits" | "fri.num_query_rounds" | "fri.reduction_strategy" => {
             return perturb_fri_config(&mut si.config.fri_config, class, i)
         }
